@@ -510,6 +510,7 @@ func c09(c *Ctx) {
 		}
 	}
 	c09LockRelease(c)
+	c09DecodeLoops(c)
 }
 
 // exitChannelsOf: channels whose closed/receive arm guards the return r (range over chan exhausted, v,ok := <-ch with !ok,
